@@ -18,6 +18,8 @@ def klass(name):
         return "float"
     if name == "Brepr":
         return "unprintable"
+    if name == "errx":
+        return "err"
     if name == "Vobj":
         return "object"
     if name in ("R12", "M12"):
